@@ -8,6 +8,14 @@
                   one accessor call on a fresh Registers over the payload [vis] handed over with no
                   spare capacity, with spare bytes s1 and with spare bytes s2:
                   [[outcome; buffer after]; [..]; [..]]
+     reg_access3r [vis; s1; s2; start; dflt; code; addr; p1; p2; route; blmode]
+                  the same, but the Registers object is obtained from AsRegisters(start) of a response
+                  VALUE {UnitID; RegisterByteLen; Data} of type ReadHoldingRegistersResponse (route 1),
+                  ReadInputRegistersResponse (2), ReadWriteMultipleRegistersResponse (3) whose
+                  RegisterByteLen is consistent with len(Data) (blmode 0), zero (1), len/2 (2), len+2 (3).
+                  The field is redundant: the payload is Data, so model, specification and verdict are
+                  those of reg_access3 -- an implementation that goes by the field reads bytes beyond
+                  the payload, refuses a valid payload or panics, and is judged accordingly.
      reg_seq      [vis; spare; start; dflt; [[code; addr; p1; p2]; ...]]
                   the calls in order on ONE Registers, then each call on a fresh copy:
                   [[outcomes shared]; [outcomes fresh]; buffer after]
@@ -93,6 +101,34 @@ Definition run_reg_access3 (a : list val) : val :=
   | _ => v_bad
   end.
 
+(* ---------- reg_access3r: through AsRegisters of a response value ---------- *)
+Definition byte_len_of_mode (blmode : N) (v : list N) : N :=
+  let n := N.of_nat (length v) in
+  u8 (if blmode =? 1 then 0 else if blmode =? 2 then n / 2 else if blmode =? 3 then n + 2 else n).
+Definition make_registers_via (blmode : N) (v s : list N) (start : N) (dflt : Z) : rres registers :=
+  let* r := as_registers (byte_len_of_mode blmode v) {| vis := v; spare := s |} start in
+  Ok (if (dflt <? 0)%Z then r else with_byte_order r (zN dflt)).
+Definition run_access1_via (blmode : N) (v s : list N) (start : N) (dflt : Z) (a : accessor) (addr : N) : val :=
+  match make_registers_via blmode v s start dflt with
+  | Ok r => let '(x, d) := access r a addr in VL [proj_outcome x; VB (buffer d)]
+  | Err _ => VL [out_new_refused; VB (v ++ s)]
+  | Panic => VL [v_panic; VB (v ++ s)]
+  end.
+Definition run_reg_access3r (a : list val) : val :=
+  match a with
+  | [VB v; VB s1; VB s2; VI start; VI dflt; VI code; VI addr; VI p1; VI p2; VI route; VI blmode] =>
+      if (1 <=? zN route) && (zN route <=? 3) && (zN blmode <=? 3) then
+        match accessor_of_code (zN code) (zN p1) (zN p2) with
+        | Some acc =>
+            VL [run_access1_via (zN blmode) v [] (zN start) dflt acc (zN addr);
+                run_access1_via (zN blmode) v s1 (zN start) dflt acc (zN addr);
+                run_access1_via (zN blmode) v s2 (zN start) dflt acc (zN addr)]
+        | None => v_bad
+        end
+      else v_bad
+  | _ => v_bad
+  end.
+
 (* ---------- reg_seq ---------- *)
 Fixpoint calls_of (l : list val) : option (list call) :=
   match l with
@@ -169,6 +205,14 @@ Definition verdict_reg_access3 (p : N) (a : list val) (out : val) : N :=
   | _, _ => if (p =? 4) || (p =? 13) then VIOLATES else NOT_JUDGED
   end.
 
+(* the payload of a response value is its Data: the verdict does not look at route / blmode *)
+Definition verdict_reg_access3r (p : N) (a : list val) (out : val) : N :=
+  match a with
+  | [v; s1; s2; start; dflt; code; addr; p1; p2; VI _; VI _] =>
+      verdict_reg_access3 p [v; s1; s2; start; dflt; code; addr; p1; p2] out
+  | _ => if (p =? 4) || (p =? 13) then VIOLATES else NOT_JUDGED
+  end.
+
 Fixpoint all_spec (v : list N) (start : N) (dflt : Z) (cs : list call) (outs : list val) : bool :=
   match cs, outs with
   | [], [] => true
@@ -199,4 +243,5 @@ Definition verdict_reg_seq (p : N) (a : list val) (out : val) : N :=
 Definition table_registers : list entry :=
   [ {| e_name := "reg_new"; e_run := run_reg_new; e_verdict := verdict_reg_new |};
     {| e_name := "reg_access3"; e_run := run_reg_access3; e_verdict := verdict_reg_access3 |};
+    {| e_name := "reg_access3r"; e_run := run_reg_access3r; e_verdict := verdict_reg_access3r |};
     {| e_name := "reg_seq"; e_run := run_reg_seq; e_verdict := verdict_reg_seq |} ].
